@@ -351,3 +351,11 @@ func isFuncIn(f *types.Func, pkgpath, name string) bool {
 	return f != nil && f.Pkg() != nil && f.Pkg().Path() == pkgpath && f.Name() == name &&
 		f.Type().(*types.Signature).Recv() == nil
 }
+
+func constInt64(c *types.Const) (int64, bool) {
+	v := constant.ToInt(c.Val())
+	if v.Kind() != constant.Int {
+		return 0, false
+	}
+	return constant.Int64Val(v)
+}
